@@ -16,6 +16,7 @@ import ast
 from ..engine import Ctx
 from ..report import Report
 from ..rules import q
+from ..rules import valnum
 from ..rules import small
 from ..source import AnalysisError
 from ..source import norm
@@ -88,6 +89,9 @@ def run(ctx: Ctx, rep: Report) -> None:
     eff(ctx, rep)
     argmin(ctx, rep)
     gen(ctx, rep)
+    # the parameter vector the cost engine scores is in iteration order
+    from .C06 import params_order
+    params_order(ctx, rep)
 
 
 def eff(ctx: Ctx, rep: Report) -> None:
@@ -152,6 +156,14 @@ def argmin(ctx: Ctx, rep: Report) -> None:
         rd = ctx.rd(f)
         rep.seen(f.qualname)
         qn = f'{cls}.{meth}'
+        tracked = _tracking_loop(ctx, f, g, rd)
+        if tracked is not None:
+            # "keep the best so far" spelling of the same selection
+            rep.count(4)
+            for key, ok, good, bad in tracked:
+                rep.check(ok, A, f'{qn}:{key}', f.path, f.lineno, good, bad,
+                          key=key)
+            continue
         sel = [n for n in g.nodes if isinstance(n.stmt, ast.Assign) and norm(
             n.stmt.targets[0]) == 'params']
         sp = [n for n in g.nodes if q.has_call('circuit.set_params',
@@ -234,6 +246,106 @@ def argmin(ctx: Ctx, rep: Report) -> None:
             key='candidates',
         )
     rep.floor(A, 16, 16, 'selector obligations')
+
+
+HS_COST = 'HilbertSchmidtCostGenerator().gen_cost(circuit, target)'
+
+
+def _tracking_loop(ctx: Ctx, f, g, rd):
+    """Recognise the running-minimum spelling of the selection:
+
+        best, best_cost = None, inf
+        for x0 in starts:
+            p = <instantiate>;  c = cost_fn(p)
+            if best is None or c < best_cost:
+                best = p;  best_cost = c        # both, under the same test
+        circuit.set_params(best)
+
+    Returns None when the function is not written this way, else the four
+    ARGMIN obligations [(key, ok, good, bad)]."""
+    sps = [(n, c) for n in g.nodes for c in n.calls()
+           if norm(c.func) == 'circuit.set_params' and len(c.args) == 1
+           and isinstance(c.args[0], ast.Name)]
+    if len(sps) != 1:
+        return None
+    spn, spc = sps[0]
+    best = spc.args[0].id
+    tests = []
+    for t in g.nodes:
+        if t.kind != 'test':
+            continue
+        for c in ast.walk(t.stmt.test):
+            if isinstance(c, ast.Compare) and len(c.ops) == 1 and isinstance(
+                    c.ops[0], (ast.Lt, ast.LtE, ast.Gt, ast.GtE)):
+                lo, hi = (c.left, c.comparators[0]) if isinstance(
+                    c.ops[0], (ast.Lt, ast.LtE)) else (
+                    c.comparators[0], c.left)
+                if isinstance(hi, ast.Name):
+                    tests.append((t, lo, hi.id))
+    upd = [n for n in g.nodes if isinstance(n.stmt, ast.Assign)
+           and norm(n.stmt.targets[0]) == best and n.loop_depth > 0]
+    if not tests or not upd:
+        return None
+    out = []
+    t, cost_e, best_cost = tests[0]
+    # the cost as an expression over the candidate (a temporary holding it
+    # is looked through)
+    cost_x = valnum.subst(ctx, f, t, cost_e)
+    cost = norm(cost_e)
+    under = [n for n in upd if g.edge_dominates(t.id, 'true', n.id)]
+    installs = g.must(lambda n: n is spn) and all(
+        spn.id not in g.in_loop_body(x) for x in g.nodes if x.kind == 'for')
+    out.append((
+        'install', installs and len(under) == len(upd),
+        f'the kept candidate `{best}` is installed with set_params after '
+        'the loop',
+        f'`{best}` is not updated only under the comparison, or not '
+        'installed by circuit.set_params after the loop'))
+    kc = [n for n in g.nodes if isinstance(n.stmt, ast.Assign) and norm(
+        n.stmt.targets[0]) == best_cost
+        and g.edge_dominates(t.id, 'true', n.id)]
+    least = len(tests) == 1 and bool(under) and bool(kc) and all(
+        norm(valnum.subst(ctx, f, n, n.stmt.value)) == norm(cost_x)
+        for n in kc) and all(
+        isinstance(n.stmt.value, ast.Name) for n in under)
+    out.append((
+        'least', least,
+        f'`{best}` and `{best_cost}` are updated together whenever '
+        f'`{cost} < {best_cost}`',
+        f'the running minimum is not maintained: under `{cost} < '
+        f'{best_cost}` the code must record both the candidate and its '
+        f'cost (`{best_cost} = {cost}`); otherwise a later, worse candidate '
+        'replaces a better one'))
+    kf = None
+    cand = norm(under[0].stmt.value) if under else None
+    if isinstance(cost_x, ast.Call) and len(cost_x.args) == 1 and (
+            cand is not None) and norm(cost_x.args[0]) in (
+            cand, norm(valnum.subst(ctx, f, t, ast.Name(cand, ast.Load())))):
+        kf = norm(cost_x.func)
+    vals = [norm(d.value) for d in rd.reaching(t, kf)
+            if d.value is not None] if kf else []
+    if kf and not vals:
+        # substitution already replaced the name by its value (and `target`
+        # by its validated form)
+        vals = [kf.replace('self.check_target(target)', 'target')]
+    okk = bool(vals) and HS_COST in vals and all(
+        x in (HS_COST, 'self.cost_fn_gen.gen_cost(circuit, target)')
+        for x in vals)
+    out.append((
+        'cost', okk,
+        'candidates are ranked by a Hilbert-Schmidt cost of (circuit, '
+        'target)',
+        f'candidates are ranked by `{kf}` = {vals}: not a scalar cost built '
+        'from (circuit, target) applied to the candidate'))
+    pd = [d for d in rd.reaching(t, cand) if d.value is not None] if (
+        cand) else []
+    out.append((
+        'candidates', bool(pd) and all(
+            'self.instantiate' in norm(d.value) or 'instantiate' in norm(
+                d.value) for d in pd),
+        'each candidate is one instantiate() result',
+        'the compared candidates are not instantiate() results'))
+    return out
 
 
 def gen(ctx: Ctx, rep: Report) -> None:
